@@ -21,6 +21,16 @@ def api_workload():
     from cm_colors import ColorPair, make_readable_bulk
     from vlib.sandbox import Capture, Scratch
 
+    if os.environ.get("VERIF_WARN_ERROR"):
+        # every warning raised from here on is an error (third-party import-time warnings are already behind us)
+        import warnings
+
+        import rich.console  # noqa: F401
+        import tinycss2  # noqa: F401
+        from cm_colors.core import visualiser  # noqa: F401
+
+        warnings.simplefilter("error")
+
     out = {"results": [], "errors": []}
     for t, b in PAIRS:
         for mode in (0, 1):
@@ -49,6 +59,14 @@ def api_workload():
                 elif save and (files != ["cm_colors_quick_report.html"] or not sizes.get("cm_colors_quick_report.html") or not utf8):
                     out["errors"].append({"call": key, "error": f"report files {sizes}, utf-8 decodable: {utf8}"})
                 out["results"].append([key, [res[0] if not isinstance(res[0], tuple) else list(res[0]), res[1]] if res else None])
+    from cm_colors.core.color_metrics import calculate_delta_e_2000
+    from cm_colors.core.conversions import rgb_to_lab, rgb_to_oklch
+
+    try:
+        out["results"].append(["metrics", [round(calculate_delta_e_2000((200, 30, 30), (20, 140, 200)), 9), [round(v, 9) for v in rgb_to_lab((12, 200, 77))],
+                                           [round(v, 9) for v in rgb_to_oklch((12, 200, 77))]]])
+    except Exception as e:  # noqa: BLE001
+        out["errors"].append({"call": "metrics", "error": f"{type(e).__name__}: {e}"})
     with Scratch("envb_") as sc:
         with Capture():
             try:
@@ -75,7 +93,7 @@ def cli_workload():
             "cards": [[c["selector"], c["codes"]] for c in run["cards"]]}
 
 
-def run_child(which, c_locale):
+def run_child(which, c_locale, warn_error=False):
     import subprocess
 
     from vlib.runner import VERIF_DIR
@@ -89,10 +107,45 @@ def run_child(which, c_locale):
         env.update({"LC_ALL": "C", "LANG": "C", "PYTHONCOERCECLOCALE": "0", "PYTHONUTF8": "0"})
     else:
         env.update({"LC_ALL": "C.UTF-8", "LANG": "C.UTF-8", "PYTHONUTF8": "1"})
+    if warn_error:
+        env["VERIF_WARN_ERROR"] = "1"
     p = subprocess.run([sys.executable, "-m", "vlib.envleg", which], env=env, capture_output=True, text=True, encoding="utf-8", cwd=VERIF_DIR, timeout=900)
     if p.returncode != 0:
         return {"__crash__": p.stderr[-500:]}
     return json.loads(p.stdout.strip().splitlines()[-1])
+
+
+def api_env_judge(case):
+    """Shared judge of the API environment leg (used by C06, C11, C17): the fixed workload in three child interpreters
+    (UTF-8 locale; LC_ALL=C with UTF-8 mode and coercion off; every warning an error) must be error-free and identical."""
+    from vlib.runner import HarnessError, Violation
+
+    ref = run_child("api", False)
+    if "__crash__" in ref:
+        raise HarnessError(f"environment leg crashed under the UTF-8 locale: {ref['__crash__']}")
+    if ref.get("errors"):
+        raise Violation("preview-or-report-fails", f"under the UTF-8 locale: {ref['errors'][:2]}")
+    c = run_child("api", True)
+    if "__crash__" in c:
+        raise Violation("locale-dependent:crash", f"the workload crashes under LC_ALL=C (preferred encoding ASCII): {c['__crash__'][-300:]}")
+    if c.get("errors"):
+        raise Violation("locale-dependent:preview-or-report", f"under LC_ALL=C (preferred encoding {c.get('preferred_encoding')}): {c['errors'][:2]}")
+    if c["results"] != ref["results"]:
+        raise Violation("locale-dependent:results", "results differ between the UTF-8 and the C locale")
+    w = run_child("api", False, warn_error=True)
+    if "__crash__" in w:
+        raise Violation("warnings-as-errors:crash", f"the workload crashes when warnings are errors: {w['__crash__'][-300:]}")
+    if w.get("errors"):
+        raise Violation("warnings-as-errors:raises", f"with warnings turned into errors: {w['errors'][:2]}")
+    if w["results"] != ref["results"]:
+        diff = [(a, b) for a, b in zip(w["results"], ref["results"]) if a != b][:2]
+        raise Violation("warnings-as-errors:results", f"results differ when warnings are errors: {diff}")
+    return {"nt": ("env", "api", c.get("preferred_encoding")), "cls": ["env-children:utf8+C-locale+warnings-as-errors"],
+            "sample": {"env": ["C.UTF-8", "LC_ALL=C PYTHONUTF8=0 PYTHONCOERCECLOCALE=0", "warnings.simplefilter('error')"], "calls": len(c["results"])}}
+
+
+def env_items(shard, nshards):
+    return [{"which": "api"}] if shard == 0 else []
 
 
 if __name__ == "__main__":
